@@ -985,6 +985,22 @@ func (ev *Eval) recSpecCall(sp *SpecFn, args []*Val) *Val {
 	if info != nil && info.phaseA {
 		return &Val{K: info.resKind, T: info.dummy}
 	}
+	if info != nil && info.phaseB {
+		// recursive call inside the definition: limited-fuel synonym (no further unfolding)
+		var terms []string
+		for _, a := range args {
+			ts, err := leafTerms(a)
+			if err != nil {
+				ev.fail("spec %s: argument not materialisable", sp.Name)
+				return vInt("0", nil)
+			}
+			terms = append(terms, ts...)
+		}
+		for i, n := range info.heapNames {
+			terms = append(terms, f.heap(ev.st, n, info.heapSorts[i]))
+		}
+		return &Val{K: info.resKind, T: "(" + info.fn0 + " " + strings.Join(terms, " ") + ")"}
+	}
 	if info == nil {
 		info = &recSpecInfo{fn: sym("spec." + sp.Name), resKind: KInt, dummy: "0", rs: "Int"}
 		if sp.ResType != nil && exprString(sp.ResType) == "bool" {
@@ -1042,7 +1058,7 @@ func (ev *Eval) recSpecCall(sp *SpecFn, args []*Val) *Val {
 		ssA := &State{cells: map[*ssa.Alloc]*Val{}, heaps: map[string]string{}, wm: "0", pc: "true", sym: &symHeaps{}}
 		saveCmds := len(f.sc.cmds)
 		mk(ssA).eval(sp.Body)
-		f.sc.cmds = f.sc.cmds[:saveCmds]
+		_ = saveCmds
 		info.phaseA = false
 		info.heapNames = ssA.sym.names
 		info.heapSorts = ssA.sym.sorts
@@ -1057,7 +1073,11 @@ func (ev *Eval) recSpecCall(sp *SpecFn, args []*Val) *Val {
 			f.boundActive = append(f.boundActive, bn)
 		}
 		f.sc.declareFun(info.fn, append(append([]string{}, info.paramSorts...), info.heapSorts...), info.rs)
+		info.fn0 = sym("spec." + sp.Name + "$0")
+		f.sc.declareFun(info.fn0, append(append([]string{}, info.paramSorts...), info.heapSorts...), info.rs)
+		info.phaseB = true
 		body := mk(ssB).eval(sp.Body)
+		info.phaseB = false
 		f.boundActive = f.boundActive[:nb]
 		if len(ssB.sym.names) > 0 {
 			ev.fail("spec %s: heap set changed between phases", sp.Name)
@@ -1065,6 +1085,8 @@ func (ev *Eval) recSpecCall(sp *SpecFn, args []*Val) *Val {
 		app := "(" + info.fn + " " + strings.Join(append(append([]string{}, bnames...), hb...), " ") + ")"
 		f.sc.add("; definition of recursive spec " + sp.Name)
 		f.sc.add(fmt.Sprintf("(assert (forall (%s) (! (= %s %s) :pattern (%s))))", strings.Join(decls, " "), app, body.T, app))
+		app0 := "(" + info.fn0 + " " + strings.Join(append(append([]string{}, bnames...), hb...), " ") + ")"
+		f.sc.add(fmt.Sprintf("(assert (forall (%s) (! (= %s %s) :pattern (%s))))", strings.Join(decls, " "), app, app0, app))
 		f.usedAssumed["recursive spec function "+sp.Name+" is well-founded (by inspection)"] = true
 	}
 	var terms []string
@@ -1096,6 +1118,8 @@ type recSpecInfo struct {
 	rs         string
 	dummy      string
 	phaseA     bool
+	phaseB     bool
+	fn0        string
 }
 
 // resolveMods evaluates modifies targets to (heap, object) pairs.
